@@ -839,10 +839,8 @@ func r165held(c *an.Ctx, rule string) {
 				continue
 			}
 			var loop *ssa.BasicBlock
-			for _, b := range f.Blocks {
-				if b.Comment == "rangechan.loop" {
-					loop = b
-				}
+			for _, rl := range an.RecvLoops(f) {
+				loop = rl.Header
 			}
 			if loop == nil {
 				continue
